@@ -157,7 +157,10 @@ class _B:
             return out
         if o == "rewindable":
             body = [M("null", None, "nr")] + (self.point(key) if self.chance(0.5) else [])
-            return [M("rewindable", None, False)] + body + [M("rewindable", None, True)]
+            if self.chance(0.4):
+                body.append(M("sleep", None, 0.1))
+            tail = [M("null", None, "after-nr")] + ([M("sleep", None, 0.1)] if self.chance(0.4) else [])
+            return [M("rewindable", None, False)] + body + [M("rewindable", None, True)] + tail
         if o == "configure":
             return [M("configure", "d3", {"gain": self.int(1, 5)}, run=key)]
         if o == "stage_pair":
@@ -311,6 +314,14 @@ class _B:
         return body
 
 
+def _count_cmd(node, cmd):
+    if not isinstance(node, list) or not node:
+        return 0
+    if node[0] == "msg":
+        return 1 if node[1] == cmd else 0
+    return sum(_count_cmd(x, cmd) for x in node if isinstance(x, list))
+
+
 def _injection(draw, st, kinds):
     kind = draw(st.sampled_from(kinds))
     inj = {"at_msg": draw(st.integers(0, 45)), "plus": draw(st.integers(0, 5)), "do": kind}
@@ -368,6 +379,11 @@ def cases(profile="general"):
             injs[0].pop("at_msg", None)
             injs[0]["at_cmd"] = "clear_checkpoint"
             injs[0]["plus_msgs"] = draw(st.integers(0, 10))
+        n_rw = _count_cmd(plan, "rewindable")
+        if n_rw and injs and "at_msg" in injs[0] and profile != "nonresumable" and draw(st.integers(0, 2)) > 0:
+            # aim the first request at the messages around a rewindability toggle
+            injs[0].pop("at_msg")
+            injs[0].update(at_cmd="rewindable", nth=draw(st.integers(1, n_rw)), plus_msgs=draw(st.integers(0, 5)))
         stages = [{"do": "call", "inj": injs}]
         if profile in ("replay", "replay_data"):
             for _ in range(3):
